@@ -253,6 +253,34 @@ func RefCommit(vals *types.ValidatorSet, h int64, id types.BlockID, commit *type
 	return t
 }
 
+// BadSlotCause names why the first slot of `commit` that is not a valid vote of the validator at its index
+// (the slot types.CommitToVoteSet trips over) is not one; "" if every present slot is a valid vote.
+func (c *Chain) BadSlotCause(h int64, commit *types.Commit) string {
+	if commit == nil {
+		return "seen-commit-missing"
+	}
+	vals := c.ValsAt(h)
+	if len(commit.Signatures) != vals.Size() {
+		return "slot-count-mismatch"
+	}
+	for i, cs := range commit.Signatures {
+		if cs.Absent() {
+			continue
+		}
+		val := vals.Validators[i]
+		if !bytes.Equal(cs.ValidatorAddress, val.Address) {
+			return "wrong-validator-address"
+		}
+		if !val.PubKey.VerifySignature(commit.VoteSignBytes(ChainID, int32(i)), cs.Signature) {
+			if cs.ForBlock() {
+				return "invalid-signature-in-for-block-slot-after-two-thirds"
+			}
+			return "invalid-signature-in-nil-slot"
+		}
+	}
+	return ""
+}
+
 // ---------------------------------------------------------------------------------------------
 // the adversary's menu
 
@@ -501,8 +529,9 @@ func (s Strategy) Next(h int64, k int) Lie {
 // Enumerate calls f for every strategy with at most maxLies lies drawn from menu, simplest first:
 // all placements of 0, then 1, then 2 … lies over heights 1..Tip+1 (several lies at one height are
 // told by successive peers, so their order matters), every applicable lie kind at every position.
-func Enumerate(menu []Lie, maxLies int, f func(Strategy) bool) {
+func Enumerate(menuFor func(total int) []Lie, maxLies int, f func(Strategy) bool) {
 	H := Tip + 1
+	var menu []Lie
 	var rec func(total int, h int, cur [][]Lie, left int) bool
 	rec = func(total int, h int, cur [][]Lie, left int) bool {
 		if h > H {
@@ -543,10 +572,26 @@ func Enumerate(menu []Lie, maxLies int, f func(Strategy) bool) {
 		return true
 	}
 	for total := 0; total <= maxLies; total++ {
+		menu = menuFor(total)
 		if !rec(total, 1, make([][]Lie, H), total) {
 			return
 		}
 	}
+}
+
+// FullMenu is every lie kind; CoreMenu leaves out the kinds whose effect on the reactors duplicates another kind
+// (a second wrong-address position, the transplanted-signatures variant of the fork commit, the two "not usable at
+// all" variants block-h+1 / malformed block, silence, re-flagging).
+func FullMenu() []Lie {
+	m := []Lie{}
+	for l := Lie(1); l < NLies; l++ {
+		m = append(m, l)
+	}
+	return m
+}
+
+func CoreMenu() []Lie {
+	return []Lie{ForgeLast, NilGarbageLast, WrongAddrFirst, DropLast, ForgeFirst, ExactTwoThirds, OldQuorum, ForkBlock, ForkCommit, HeightMinus, NoBlock}
 }
 
 // ---------------------------------------------------------------------------------------------
